@@ -63,6 +63,18 @@ var c16EndToEnd = func(run *ev.Run) {
 			cases = append(cases, cs)
 		}
 	}
+	// histories: the same entity ID was known with another list before (re-registered / updated in place) or is known with
+	// another list in another tenant
+	for i := 0; i < nHealthy; i++ {
+		cs := cases[i]
+		if cs.Transport == "redirect" && len(cs.Shapes) == 2 {
+			for _, h := range []string{"after-reregistration:reregister", "after-reregistration:replace", "after-reregistration:edit", "after-other-tenant"} {
+				c2 := cs
+				c2.Persist = h
+				cases = append(cases, c2)
+			}
+		}
+	}
 	deadline := devx.Deadline(5 * time.Minute)
 	n, complete := parallel(len(cases), deadline, func(i int) {
 		cs := cases[i]
@@ -91,14 +103,58 @@ func c16E2EOne(shapes []int, requested, transport, persist string) (class, claus
 		list[p] = c16Entry(s, p)
 		a.ACS = append(a.ACS, msg.ACS{Binding: list[p].Binding, Location: list[p].Location, Index: list[p].Index, IsDefault: list[p].IsDefault})
 	}
-	w, err := world.New(world.Config{})
+	wcfg := world.Config{}
+	if persist == "after-other-tenant" {
+		wcfg.IssuerMode = "host"
+	}
+	w, err := world.New(wcfg)
 	if err != nil {
 		panic(err)
 	}
-	if _, err := w.Store.RegisterSP("app-a", a.XML()); err != nil {
+	history := ""
+	if strings.HasPrefix(persist, "after-reregistration:") || persist == "after-other-tenant" {
+		// history on one provider: the same service provider (entity ID) was first known with ANOTHER list - the judged list reversed,
+		// at other locations - and a request with the same requested binding was served; then it is re-registered (again, or in place
+		// on the registry's ServiceProvider object) with the judged list - or the other list belongs to the same entity ID in another
+		// TENANT of a multi-tenant storage. The judged request gets the documented choice for the list registered for it now.
+		history = persist
+		old := a
+		old.ACS = nil
+		for i := len(a.ACS) - 1; i >= 0; i-- {
+			e := a.ACS[i]
+			e.Location = strings.Replace(e.Location, "/acs/", "/old-acs/", 1)
+			old.ACS = append(old.ACS, e)
+		}
+		edoc := func(host string) []byte {
+			return msg.Authn(msg.AuthnOpts{ID: "_earlier", Issuer: a.EntityID, Destination: w.Cfg.SSOLocation(host), ProtocolBinding: requested}).Render(xt.Style{})
+		}
+		if persist == "after-other-tenant" {
+			const th = "tenant-b.example"
+			if err := w.Store.RegisterTenantSP(w.Cfg.Issuer(th), "app-a", old.XML()); err != nil {
+				panic(err)
+			}
+			if _, err := w.Store.RegisterSP("app-a", a.XML()); err != nil {
+				panic(err)
+			}
+			w.Do(msg.Redirect{XML: edoc(th), RelayState: "rs0"}.Request(th, w.Cfg.SSOPath()))
+		} else {
+			if _, err := w.Store.RegisterSP("app-a", old.XML()); err != nil {
+				panic(err)
+			}
+			w.Do(msg.Redirect{XML: edoc(""), RelayState: "rs0"}.Request("", w.Cfg.SSOPath()))
+			switch strings.TrimPrefix(persist, "after-reregistration:") {
+			case "reregister":
+				if _, err := w.Store.RegisterSP("app-a", a.XML()); err != nil {
+					panic(err)
+				}
+			case "replace", "edit":
+				w.Store.UpdateSPInPlace(a.EntityID, a.XML(), strings.TrimPrefix(persist, "after-reregistration:"))
+			}
+		}
+		persist = ""
+	} else if _, err := w.Store.RegisterSP("app-a", a.XML()); err != nil {
 		panic(err)
 	}
-	history := ""
 	if strings.HasPrefix(persist, "after-request:") {
 		// history on one provider: an earlier request of the same SP with another requested binding is handled first; the
 		// judged request still gets the documented choice for the list as registered (document order)
@@ -108,9 +164,9 @@ func c16E2EOne(shapes []int, requested, transport, persist string) (class, claus
 		w.Do(msg.Redirect{XML: edoc, RelayState: "rs0"}.Request("", w.Cfg.SSOPath()))
 	}
 	if persist != "" {
-		w.Store.FaultAt("CreateAuthRequest", 1, persist)
+		w.Store.FaultNext("CreateAuthRequest", 1, persist)
 	}
-	doc := msg.Authn(msg.AuthnOpts{Issuer: a.EntityID, Destination: w.Cfg.SSOLocation(""), ProtocolBinding: requested}).Render(xt.Style{})
+	doc := msg.Authn(msg.AuthnOpts{Issuer: a.EntityID, Destination: w.Cfg.SSOLocation("idp.example"), ProtocolBinding: requested}).Render(xt.Style{})
 	var rep *world.Reply
 	if transport == "redirect" {
 		rep = w.Do(msg.Redirect{XML: doc, RelayState: "rs"}.Request("", w.Cfg.SSOPath()))
